@@ -197,6 +197,12 @@ func c04RoundTrip(g *Gen) []Op {
 			h := hs[g.pick("rt-h", len(hs))]
 			rcv, token = h.addr, h.token
 		}
+		if hs := g.holdings("N"); len(hs) > 0 && g.pick("rt-single-nft", 3) == 0 {
+			// freezeSingleNFT ; unFreezeSingleNFT of a held (token, nonce) by its composed key: the entry carries metadata,
+			// which the round trip has to leave as it was
+			h := hs[g.pick("rt-nft-h", len(hs))]
+			rcv, token = h.addr, []byte(h.suffix)
+		}
 		if g.e.M.acc(g.shard(rcv), rcv).entry(string(token)).Frozen {
 			return nil // already frozen: unfreezing would change behaviour legitimately
 		}
